@@ -190,6 +190,11 @@ def make_key_step(shape, prop_fn, constrain=None):
         recs.append(dict(kind="witness", inputs=inputs_under(prog, model, c), predicted=predicted_under(prog, model, c, out)))
         clauses = prop_fn(st, it, c, out)
         for cname, formula in clauses:
+            if cname.startswith("cover:"):
+                # reachability witness: the formula must be satisfiable on at least one path overall
+                if formula is True or (formula is not False and st.feasible(formula)):
+                    recs.append(dict(kind="cover", name=cname))
+                continue
             if formula is True:
                 continue
             neg = z3.Not(formula) if formula is not False else z3.BoolVal(True)
@@ -239,6 +244,9 @@ def reph_prop(st, it, c, out):
     terms = [z3.Implies(cond, ins(k)) for k, cond in exp]
     terms.append(z3.Implies(z3.Not(z3.Or([cond for _, cond in exp])) if exp else z3.BoolVal(True), ins(n)))
     clauses.append(("placement", z3.Implies(pre, z3.And(terms))))
+    for k, cond in exp:
+        clauses.append(("cover:moved_to_%s" % ("start" if k == 0 else "middle"), z3.And(pre, cond)))
+    clauses.append(("cover:appended", z3.And(pre, z3.Not(z3.Or([cond for _, cond in exp])) if exp else pre)))
     # the returned suggestion shows the composed text (suggestions off -> single string)
     ret = out[1]
     sug_on = c["opts"]["fixed_suggestion"]
@@ -268,13 +276,22 @@ def classify_reph(v):
     return "reph " + v["clause"]
 
 
-def run_key_obligation(check, name, shapes, prop_fn, classify, describe, budget_s=None, constrain=None, validate_cap=4000):
+def run_key_obligation(check, name, shapes, prop_fn, classify, describe, budget_s=None, constrain=None, validate_cap=4000,
+                       required_covers=None, maker=None, confirm=None):
     """Generic driver: explore, validate witnesses natively, confirm violations natively, report."""
     def make(shape):
+        if maker is not None:
+            return maker(shape, prop_fn, constrain)
         return make_key_step(shape, prop_fn, constrain)
     records, errors, summ = msym.run_shapes(check, name, shapes, make, budget_s=budget_s)
     wit = [r for r in records if r["kind"] == "witness"]
     vio = [r for r in records if r["kind"] == "violation"]
+    covers = {}
+    for r in records:
+        if r["kind"] == "cover":
+            covers[r["name"]] = covers.get(r["name"], 0) + 1
+    check.extra.setdefault("covers", {}).update({name + "/" + k: v for k, v in covers.items()})
+    missing = [k for k in (required_covers or []) if k not in covers]
     okc, bad = validate_witnesses(check, name, wit, cap=validate_cap)
     detail = "%d paths, %d witnesses replayed natively (%d agree)" % (summ["paths"], min(len(wit), validate_cap or len(wit)), okc)
     if errors:
@@ -289,11 +306,15 @@ def run_key_obligation(check, name, shapes, prop_fn, classify, describe, budget_
     if summ["paths"] == 0:
         check.obligation(name, "mirsym", "inconclusive", "no feasible path reached the assertion (vacuous)")
         return
+    if missing:
+        check.obligation(name, "mirsym", "inconclusive", "vacuity: reachability witnesses never satisfied: %s" % missing)
+        return
+    detail += "; %d reachability witnesses satisfied" % len(covers)
     if not vio:
         check.obligation(name, "mirsym", "held", detail + "; every property query unsat")
         return
     # confirm violations natively, one per role
-    status = confirm_violations(check, name, vio, classify, describe)
+    status = (confirm or confirm_violations)(check, name, vio, classify, describe)
     check.obligation(name, "mirsym", status, detail + "; %d counterexample models" % len(vio))
 
 
@@ -441,4 +462,518 @@ def obl_reph(check, max_n, budget_s=None):
                                 key_value="U+09B0 U+09CD", other_options="symbolic",
                                 pending_sign="None; I/E/OI up to length %d" % min(max_n, 3))
     shapes.sort(key=lambda s: -s["n"])
-    run_key_obligation(check, "reph_key", shapes, reph_prop, classify_reph, describe_reph, budget_s=budget_s)
+    run_key_obligation(check, "reph_key", shapes, reph_prop, classify_reph, describe_reph, budget_s=budget_s,
+                       required_covers=["cover:moved_to_start", "cover:moved_to_middle", "cover:appended"])
+
+
+# ------------------------------------------------------------------------- C12
+
+def kar2vowel(v):
+    """z3 term: the independent vowel matching a vowel sign."""
+    if not is_sym(v):
+        return CL.KAR_TO_VOWEL.get(v, v)
+    e = v
+    for k, iv in CL.KAR_TO_VOWEL.items():
+        e = z3.If(v == k, z3.BitVecVal(iv, 32), e)
+    return e
+
+
+def zb(x):
+    return x if is_sym(x) else z3.BoolVal(bool(x))
+
+
+def helper_expected(p, value, opts):
+    """Reference for one key with old kar order off: -> (silent, [(cond, expected elems)]) with mutually
+    exclusive, exhaustive conds. Written from the property text as an ordered rule list."""
+    n = len(p)
+    av, ac, tk = zb(opts["fixed_vowel"]), zb(opts["fixed_chandra"]), zb(opts["fixed_kar"])
+    reph_on = zb(opts["fixed_old_reph"])
+    v = value[0]
+    T, F = z3.BoolVal(True), z3.BoolVal(False)
+    cases = []
+    if len(value) == 2:
+        is_zofola = z3.And(zeq(value[0], ZOFOLA[0]), zeq(value[1], ZOFOLA[1]))
+        is_reph = z3.And(zeq(value[0], REPH[0]), zeq(value[1], REPH[1]), reph_on)
+    else:
+        is_zofola, is_reph = F, F
+    if n > 0:
+        last = p[-1]
+        bare_r = z3.And(zeq(last, CL.B_R), z3.Not(is_h(p[-2])) if n >= 2 else T)
+    else:
+        last = None
+        bare_r = F
+    # R1 zo-fola
+    cases.append((z3.And(is_zofola, bare_r), list(p) + [CL.ZWJ] + list(value)))
+    cases.append((z3.And(is_zofola, z3.Not(bare_r)), list(p) + list(value)))
+    rest = z3.And(z3.Not(is_zofola), z3.Not(is_reph))
+    isK = is_k(v)
+    if len(value) == 1:
+        if n == 0:
+            r2 = z3.And(isK, av)
+            cases.append((z3.And(rest, r2), [kar2vowel(v)]))
+            cases.append((z3.And(rest, z3.Not(r2)), [v]))
+            silent = is_rare(v)
+        else:
+            lastV = z3.Or(is_iv(last), is_k(last))
+            lastP = zin(last, CL.PUNCT_ASSERTED)
+            lastS = z3.Or(zin(last, CL.PUNCT_SILENT), is_rare(last))
+            r2 = z3.And(isK, av, z3.Or(lastV, lastP))
+            r3 = z3.And(isK, z3.Not(r2), ac, is_n(last))
+            r4 = z3.And(isK, z3.Not(r2), z3.Not(r3), is_h(last))
+            r7 = z3.And(isK, z3.Not(r2), z3.Not(r3), z3.Not(r4), tk, is_c(last), zin(v, CL.LIGATURE_KARS))
+            r5 = z3.And(zeq(v, CL.HASANTA), is_h(last))
+            r6 = z3.And(zeq(v, CL.AU_LENGTH_MARK), is_h(last))
+            other = z3.Not(z3.Or(r2, r3, r4, r7, r5, r6))
+            cases.append((z3.And(rest, r2), list(p) + [kar2vowel(v)]))
+            cases.append((z3.And(rest, r3), list(p[:-1]) + [v, CL.CHANDRA]))
+            cases.append((z3.And(rest, r4), list(p[:-1]) + [kar2vowel(v)]))
+            cases.append((z3.And(rest, r7), list(p) + [CL.ZWNJ, v]))
+            cases.append((z3.And(rest, r5), list(p) + [CL.ZWNJ]))
+            cases.append((z3.And(rest, r6), list(p[:-1]) + [0x0994]))
+            cases.append((z3.And(rest, other), list(p) + [v]))
+            silent = z3.Or(is_rare(v), z3.And(isK, av, lastS))
+    else:
+        # multi-code-point value: asserted only when no rule's trigger matches its first character
+        trig = z3.Or(isK, is_rare(v))
+        if n > 0:
+            trig = z3.Or(trig, z3.And(is_h(last), z3.Or(zeq(v, CL.HASANTA), zeq(v, CL.AU_LENGTH_MARK))))
+        cases.append((rest, list(p) + list(value)))
+        silent = z3.And(rest, trig)
+    return z3.Or(silent, is_reph), cases
+
+
+def helper_prop(st, it, c, out):
+    prog = it.p
+    if out[0] == "panic":
+        return [("no_panic", False)]
+    p, value = c["buf"], c["value"]
+    r = fm_field(prog, c["fm"], "buffer").elems
+    silent, cases = helper_expected(p, value, c["opts"])
+    terms = [z3.Implies(cond, seq_eq(r, exp)) for cond, exp in cases]
+    clauses = [("rule_table", z3.Implies(z3.Not(silent), z3.And(terms)))]
+    for i, (cond, exp) in enumerate(cases):
+        clauses.append(("cover:case%d_len%d_%d" % (i, min(len(p), 1), min(len(value), 2)), z3.And(cond, z3.Not(silent))))
+    ret = out[1]
+    single = prog.enums["Suggestion"]["Single"]
+    if not (isinstance(ret, Agg) and ret.kind == "adt:Suggestion" and ret.variant == single):
+        clauses.append(("returns_single", False))
+    else:
+        txt = ret.fields[prog.enum_fields[("Suggestion", "Single")].index("suggestion")].elems
+        clauses.append(("returns_buffer", seq_eq(txt, r)))
+    pend = fm_field(prog, c["fm"], "pending_kar")
+    clauses.append(("no_pending_sign", pend.variant == 0))
+    clauses.append(("typed_untouched", len(fm_field(prog, c["fm"], "typed").elems) == 0))
+    return clauses
+
+
+def classify_helper(v):
+    if v["predicted"].get("panic") is not None:
+        return "fixed key panics (helpers)"
+    val = v["inputs"]["layout"]["Key_a_Normal"]
+    return "helper rule: clause %s, key value U+%s" % (v["clause"], " U+".join("%04X" % ord(ch) for ch in val))
+
+
+def describe_helper(v):
+    i = v["inputs"]
+    if v["predicted"].get("panic") is not None:
+        return "key value %r on composition %r panics: %s" % (i["layout"]["Key_a_Normal"], i["buffer"], v["predicted"]["panic"])
+    return "key value %r on composition %r gives %r (clause %s, options %s)" % (
+        i["layout"]["Key_a_Normal"], i["buffer"], v["predicted"]["state"]["buffer"], v["clause"],
+        ",".join(k for k, x in i["opts"].items() if x))
+
+
+def obl_helpers(check, max_n, max_v, budget_s=None):
+    shapes = []
+    fx = {"fixed_suggestion": False, "fixed_kar_order": False, "ansi": False}
+    for n in range(0, max_n + 1):
+        for vl in range(1, max_v + 1):
+            shapes.append(dict(n=n, value=vl, pending=None, fixed=dict(fx)))
+    check.bounds["helper_rules"] = dict(text_code_points="0..%d, each any Unicode scalar value" % max_n,
+                                        key_value_code_points="1..%d, each any Unicode scalar value" % max_v,
+                                        options="auto vowel / auto chandrabindu / traditional joining / old reph symbolic (16 settings); old kar order off")
+    shapes.sort(key=lambda s: -(s["n"] + s["value"]))
+    req = ["cover:case%d_len1_1" % i for i in range(2, 9)] + ["cover:case0_len1_2", "cover:case1_len1_2", "cover:case2_len1_2",
+                                                                "cover:case2_len0_1", "cover:case3_len0_1"]
+    run_key_obligation(check, "helper_rules", shapes, helper_prop, classify_helper, describe_helper, budget_s=budget_s,
+                       required_covers=req)
+
+
+# ------------------------------------------------------------------------- generic event step (C06, C01, C02, C14)
+
+def stub_dictionary_suggestion(it, args, callee):
+    """Contract stand-in for FixedMethod::create_dictionary_suggestion (the candidate assembly is decided by
+    the assembly obligations): a non-empty list whose auxiliary text and first candidate are the composition."""
+    prog = it.p
+    fm = args[0].get()
+    cfg = args[2].get()
+    buf = fm_field(prog, fm, "buffer")
+    sug = fm_field(prog, fm, "suggestions")
+    first = Agg("adt:Rank", prog.enums["Rank"]["First"], [SString(buf.elems)])
+    sug.items[:] = [first]
+    ansi = cfg.fields[prog.structs["Config"].index("ansi")]
+    order = prog.enum_fields[("Suggestion", "Full")]
+    vals = {"auxiliary": SString(buf.elems), "suggestions": msym_vec([SString(buf.elems)]), "selection": 0, "ansi": ansi}
+    return Agg("adt:Suggestion", prog.enums["Suggestion"]["Full"], [vals[k] for k in order])
+
+
+def msym_vec(items):
+    from mirsym.values import SVec
+    return SVec(items)
+
+
+def make_event_step(shape, prop_fn, constrain=None):
+    """One event from a symbolic pre-state. shape: n (text length), m (raw typed length), pending, event in
+    {key, nokey, backspace, commit, finish}, value (len or tuple) for key events, fixed options, leftover (count of
+    stale scratch candidates)."""
+    n, m = shape["n"], shape.get("m", 0)
+    fixed = shape.get("fixed", {})
+    ev = shape["event"]
+
+    def build(st, it):
+        prog = it.p
+        it.env["overrides"] = {"FixedMethod::create_dictionary_suggestion": stub_dictionary_suggestion}
+        buf = [st.sym_char("b%d" % i) for i in range(n)]
+        typed = [st.sym_char("t%d" % i, 0x20, 0x7e) for i in range(m)]
+        value = []
+        if ev == "key":
+            v = shape["value"]
+            value = list(v) if isinstance(v, (tuple, list)) else [st.sym_char("v%d" % i) for i in range(v)]
+        cfg, opts = mk_config(prog, st, fixed)
+        left = []
+        for i in range(shape.get("leftover", 0)):
+            left.append(Agg("adt:Rank", prog.enums["Rank"]["Other"], [SString([st.sym_char("l%d" % i)]), st.sym_bv("ld%d" % i, 8)]))
+        entries = [(key_name("Key_a_Normal"), value)] if ev == "key" else []
+        fm = mk_fixed(prog, buf, typed, shape.get("pending"), left, entries)
+        ctrl = st.sym_bool("ctrl") if ev == "backspace" else None
+        index = st.sym_bv("commit_index", 64) if ev == "commit" else None
+        st.ctx = dict(buf=buf, typed=typed, value=value, opts=opts, fm=fm, cfg=cfg, shape=shape, ctrl=ctrl, index=index)
+        if constrain:
+            constrain(st, st.ctx)
+        st.ctx["n_init_constraints"] = len(st.constraints)
+        me = Ref([fm], 0, True)
+        data = Ref([Opaque("Data")], 0)
+        cr = Ref([cfg], 0)
+
+        def run():
+            if ev in ("key", "nokey"):
+                fn = prog.find_trait_fn("FixedMethod", "Method", "get_suggestion")
+                ret = it.call_function(fn, [me, VC_A, 0, 0, data, cr])
+            elif ev == "backspace":
+                fn = prog.find_trait_fn("FixedMethod", "Method", "backspace_event")
+                ret = it.call_function(fn, [me, ctrl, data, cr])
+            elif ev == "commit":
+                fn = prog.find_trait_fn("FixedMethod", "Method", "candidate_committed")
+                ret = it.call_function(fn, [me, index, cr])
+            elif ev == "finish":
+                fn = prog.find_trait_fn("FixedMethod", "Method", "finish_input_session")
+                ret = it.call_function(fn, [me])
+            else:
+                raise Inconclusive("event %s" % ev)
+            fo = prog.find_trait_fn("FixedMethod", "Method", "ongoing_input_session")
+            ongoing = it.call_function(fo, [Ref([fm], 0)])
+            return (ret, ongoing)
+        return run
+
+    def event_json(model, c):
+        if ev in ("key", "nokey"):
+            return {"op": "key", "key": VC_A, "mod": 0, "sel": 0}
+        if ev == "backspace":
+            return {"op": "backspace", "ctrl": bool(model_value(model, c["ctrl"]))}
+        if ev == "commit":
+            return {"op": "commit", "index": min(int(model_value(model, c["index"])), 1 << 40)}
+        return {"op": "finish"}
+
+    def inputs_under(prog, model, c):
+        left = []
+        for r in fm_field(prog, c["fm0"], "suggestions") if False else []:
+            pass
+        d = dict(buffer=model_string(model, c["buf"]), typed=model_string(model, c["typed"]),
+                 pending=c["shape"].get("pending"), opts=opts_json(model, c["opts"]),
+                 layout=({"Key_a_Normal": model_string(model, c["value"])} if ev == "key" else {"Key_b_Normal": "ক"}),
+                 event=event_json(model, c))
+        d["suggestions"] = [[2, chr(model_value(model, z3.BitVec("l%d" % i, 32))), int(model_value(model, z3.BitVec("ld%d" % i, 8)))]
+                            for i in range(c["shape"].get("leftover", 0))]
+        return d
+
+    def predicted_under(prog, model, c, out):
+        if out[0] == "panic":
+            return dict(panic=out[1].message)
+        ret, ongoing = out[1]
+        d = dict(state=fixed_state(prog, model, c["fm"]), ongoing=bool(model_value(model, ongoing)))
+        if isinstance(ret, Agg) and ret.kind == "adt:Suggestion":
+            rs = render_suggestion(prog, model, ret)
+            # with suggestions on the list content is the assembly's business (stubbed here): compare the kind only
+            if rs["kind"] == "full":
+                rs = None
+            d["ret"] = rs
+        return d
+
+    def on_path(st, it, out):
+        prog = it.p
+        c = st.ctx
+        recs = []
+        model = st.get_model()
+        recs.append(dict(kind="witness", inputs=inputs_under(prog, model, c), predicted=predicted_under(prog, model, c, out)))
+        for cname, formula in prop_fn(st, it, c, out):
+            if cname.startswith("cover:"):
+                if formula is True or (formula is not False and st.feasible(formula)):
+                    recs.append(dict(kind="cover", name=cname))
+                continue
+            if formula is True:
+                continue
+            neg = z3.Not(formula) if formula is not False else z3.BoolVal(True)
+            st.solver.push()
+            st.solver.add(neg)
+            if st._check(None):
+                m2 = st.solver.model()
+                recs.append(dict(kind="violation", clause=cname, inputs=inputs_under(prog, m2, c),
+                                 predicted=predicted_under(prog, m2, c, out)))
+            st.solver.pop()
+        return recs
+    return build, on_path
+
+
+# ------------------------------------------------------------------------- C06 (fixed method)
+
+def mentions(expr, names):
+    """Does a z3 term mention one of the named constants?"""
+    seen = set()
+    todo = [expr]
+    while todo:
+        e = todo.pop()
+        if not is_sym(e):
+            continue
+        i = e.get_id()
+        if i in seen:
+            continue
+        seen.add(i)
+        if z3.is_const(e) and e.decl().kind() == z3.Z3_OP_UNINTERPRETED and e.decl().name() in names:
+            return True
+        todo.extend(e.children())
+    return False
+
+
+def session_constrain(st, c):
+    """Reachable-state invariant assumed on the pre-state (its preservation is obligation `session_invariant`)."""
+    o = c["opts"]
+    sh = c["shape"]
+    m = len(c["typed"])
+    if m > 0:
+        st.assume(zb(o["fixed_suggestion"]))         # raw keys are recorded only with suggestions on
+    if sh.get("pending") is not None:
+        st.assume(zb(o["fixed_kar_order"]))           # a sign can only be pending under old kar order
+
+
+def session_prop(st, it, c, out):
+    prog = it.p
+    if out[0] == "panic":
+        return [("no_panic", False)]
+    ret, ongoing = out[1]
+    sh = c["shape"]
+    ev = sh["event"]
+    fm = c["fm"]
+    buf = fm_field(prog, fm, "buffer").elems
+    typed = fm_field(prog, fm, "typed").elems
+    pend = fm_field(prog, fm, "pending_kar")
+    fresh = (len(buf) == 0 and len(typed) == 0 and pend.variant == 0)
+    n, m = sh["n"], sh.get("m", 0)
+    clauses = []
+    single = prog.enums["Suggestion"]["Single"]
+    ret_empty = None
+    if isinstance(ret, Agg) and ret.kind == "adt:Suggestion":
+        if ret.variant == single:
+            ret_empty = len(ret.fields[prog.enum_fields[("Suggestion", "Single")].index("suggestion")].elems) == 0
+        else:
+            ret_empty = len(ret.fields[prog.enum_fields[("Suggestion", "Full")].index("suggestions")].items) == 0
+    ong = ongoing if isinstance(ongoing, bool) else None
+    if ev in ("commit", "finish"):
+        clauses.append(("terminating_event_leaves_fresh_state", fresh))
+        clauses.append(("terminating_event_ends_session", ong is False))
+    if ev == "backspace":
+        idle = (n == 0 and sh.get("pending") is None)
+        if idle:
+            clauses.append(("idle_backspace_returns_empty", ret_empty is True))
+            clauses.append(("idle_backspace_starts_nothing", fresh and ong is False))
+        ctrl = zb(c["ctrl"])
+        if n > 0:
+            clauses.append(("ctrl_backspace_clears", z3.Implies(ctrl, z3.BoolVal(bool(fresh and ong is False and ret_empty is True)))))
+        if ret_empty is True:
+            clauses.append(("empty_return_means_fresh_state", fresh))
+            clauses.append(("empty_return_ends_session", ong is False))
+        else:
+            clauses.append(("nonempty_return_means_ongoing", ong is True))
+            before = n + (1 if sh.get("pending") else 0)
+            after = len(buf) + (1 if pend.variant == 1 else 0)
+            clauses.append(("backspace_makes_progress", after < before))
+            if sh.get("pending") is None:
+                clauses.append(("backspace_pops_one_code_point", seq_eq(buf, c["buf"][:-1])))
+        clauses.append(("cover:backspace_%s" % ("empty" if ret_empty else "nonempty"), True))
+    if ev in ("key", "nokey"):
+        if ret_empty is False:
+            clauses.append(("nonempty_return_means_ongoing", ong is True))
+        if ev == "nokey":
+            clauses.append(("key_without_value_changes_nothing",
+                            z3.And(seq_eq(buf, c["buf"]), seq_eq(typed, c["typed"])) if pend.variant == (1 if sh.get("pending") else 0) else False))
+    # invariant preservation (every event)
+    o = c["opts"]
+    inv = []
+    if len(typed) > 0:
+        inv.append(zb(o["fixed_suggestion"]))
+    if pend.variant == 1:
+        inv.append(zb(o["fixed_kar_order"]))
+    if len(buf) == 0 and pend.variant == 0:
+        inv.append(z3.BoolVal(len(typed) == 0))
+    clauses.append(("session_invariant_preserved", z3.And(inv) if inv else True))
+    # session flag is derived from the state
+    if ong is not None:
+        clauses.append(("flag_matches_state", ong == (len(buf) > 0 or pend.variant == 1)))
+    # stale scratch candidates of an earlier word never show through
+    left = ["l%d" % i for i in range(sh.get("leftover", 0))] + ["ld%d" % i for i in range(sh.get("leftover", 0))]
+    if left:
+        vals = list(buf) + list(typed)
+        if isinstance(ret, Agg) and ret.kind == "adt:Suggestion":
+            if ret.variant == single:
+                vals += list(ret.fields[prog.enum_fields[("Suggestion", "Single")].index("suggestion")].elems)
+            else:
+                f = dict(zip(prog.enum_fields[("Suggestion", "Full")], ret.fields))
+                vals += list(f["auxiliary"].elems)
+                for x in f["suggestions"].items:
+                    vals += list(x.elems)
+        leak = any(mentions(v, left) for v in vals) or any(mentions(k, left) for k in st.constraints[c["n_init_constraints"]:])
+        clauses.append(("stale_scratch_candidates_not_observable", not leak))
+    return clauses
+
+
+def classify_session(v):
+    if v["predicted"].get("panic") is not None:
+        return "fixed %s event panics" % v["inputs"]["event"]["op"]
+    return "fixed session: %s after %s" % (v["clause"], v["inputs"]["event"]["op"])
+
+
+def describe_session(v):
+    i = v["inputs"]
+    if v["predicted"].get("panic") is not None:
+        return "%s on state buffer=%r typed=%r pending=%r panics: %s" % (i["event"], i["buffer"], i["typed"], i["pending"], v["predicted"]["panic"])
+    return "%s on state buffer=%r typed=%r pending=%r leaves %s (session flag %s); clause %s; options %s" % (
+        json.dumps(i["event"]), i["buffer"], i["typed"], i["pending"], json.dumps(v["predicted"]["state"], ensure_ascii=False),
+        v["predicted"].get("ongoing"), v["clause"], ",".join(k for k, x in i["opts"].items() if x))
+
+
+def session_shapes(max_n, max_m, max_v):
+    shapes = []
+    for ev in ("backspace", "commit", "finish", "nokey", "key"):
+        for n in range(0, max_n + 1):
+            for m in range(0, max_m + 1):
+                for pending in (None, "I", "E", "OI"):
+                    if n == 0 and pending is None and m > 0:
+                        continue   # idle state is fresh (invariant)
+                    for vl in (range(1, max_v + 1) if ev == "key" else (0,)):
+                        if ev == "key" and (pending not in (None, "E") and n > 1):
+                            continue   # the three signs share every branch; keep one representative for long texts
+                        sh = dict(event=ev, n=n, m=m, pending=pending, value=vl, fixed={"ansi": False},
+                                  leftover=(1 if (n == 0 and pending is None) else 0))
+                        shapes.append(sh)
+    return shapes
+
+
+def obl_session_fixed(check, max_n, max_m, max_v, budget_s=None):
+    shapes = session_shapes(max_n, max_m, max_v)
+    check.bounds["fixed_session"] = dict(text_code_points="0..%d any scalar values" % max_n, raw_typed_chars="0..%d printable ASCII" % max_m,
+                                         pending_sign="None/I/E/OI", key_value_code_points="1..%d" % max_v,
+                                         events="key, key without layout value, backspace (ctrl symbolic), commit (any index), finish",
+                                         options="all 11 symbolic except ANSI (no influence on the state machine)",
+                                         candidate_assembly="replaced by its contract (non-empty list showing the composition)")
+    shapes.sort(key=lambda s: -(s["n"] + s["m"] + s["value"]))
+    run_key_obligation(check, "fixed_session", shapes, session_prop, classify_session, describe_session, budget_s=budget_s,
+                       constrain=session_constrain, maker=make_event_step, confirm=confirm_session,
+                       required_covers=["cover:backspace_empty", "cover:backspace_nonempty"])
+
+
+def confirm_session(check, name, vio, classify, describe):
+    """Session-state counterexamples start from an arbitrary invariant-satisfying state; confirm them by finding the
+    same clause violated on a state *reached* through the API: bounded native search over short key histories."""
+    groups = {}
+    for v in vio:
+        groups.setdefault(classify(v), []).append(v)
+    status = "held"
+    worst = {"held": 0, "known": 1, "inconclusive": 2, "violated": 3}
+    for key, vs in sorted(groups.items()):
+        found = None
+        for v in vs[:6]:
+            found = native_session_search(v)
+            if found:
+                break
+        if found is None:
+            st = "inconclusive"
+            check.obligation(name + ":" + key, "mirsym", "inconclusive",
+                             "counterexample from an invariant-satisfying state was not re-found on an API-reachable state "
+                             "(strengthen the invariant): %s" % describe(vs[0])[:400])
+        else:
+            sc, obs, what = found
+            check.stats["traces_validated"] += 1
+            st = check.finding(key, what, dict(scenario=sc, observed=obs, solver_counterexample=vs[0]["inputs"]))
+            check.sample(dict(obligation=name, counterexample=vs[0]["inputs"], role=key))
+        if worst[st] > worst[status]:
+            status = st
+    return status
+
+
+SEARCH_VALUES = ["ক", "্", "ি", "া", "ঁ", "র", "্য", "ৄ", "ে", "আ"]
+
+
+def native_session_search(v):
+    """Try all key histories of length <= 3 over a small alphabet of layout values (same options as the
+    counterexample), followed by the counterexample's event pattern; look for the violated clause natively."""
+    opts = v["inputs"]["opts"]
+    clause = v["clause"]
+    ev = v["inputs"]["event"]
+    lay = dict(v["inputs"].get("layout", {}))
+    for i, val in enumerate(SEARCH_VALUES):
+        lay["Key_%s_Normal" % PLANT_NAMES[i]] = val
+    scs = []
+    hist = [()]
+    for L in (1, 2, 3):
+        for combo in itertools.product(range(len(SEARCH_VALUES)), repeat=L):
+            hist.append(combo)
+    for combo in hist:
+        steps = [{"op": "new", "config": {"layout_json": lay, "database": "/repo/data", "opts": opts}}]
+        for k in combo:
+            steps.append({"op": "key", "key": PLANT_KEYS[k], "mod": 0, "sel": 0})
+        # drive to the end with the counterexample's event, repeated for backspace
+        reps = 4 if ev["op"] == "backspace" else 1
+        for _ in range(reps):
+            steps.append(dict(ev))
+            steps.append({"op": "get_state"})
+        scs.append({"steps": steps})
+    res = run_replay_parallel(scs, timeout=1200)
+    for sc, r in zip(scs, res):
+        rr = r["results"]
+        for i, x in enumerate(rr):
+            if x.get("op") != ev["op"] or i + 1 >= len(rr):
+                continue
+            st = rr[i + 1].get("state") or {}
+            if "panic" in x:
+                if v["predicted"].get("panic") is not None:
+                    return sc, rr[i:i + 2], "event %s panics after keys %s: %s" % (ev["op"], [s.get("key") for s in sc["steps"][1:i]], x["panic"])
+                continue
+            sug = x.get("suggestion")
+            empty = sug["empty"] if sug else None
+            fresh = st.get("buffer") == "" and st.get("typed") == "" and st.get("pending") is None
+            bad = False
+            if clause in ("terminating_event_leaves_fresh_state", "empty_return_means_fresh_state") and (empty is True or ev["op"] in ("commit", "finish")) and not fresh:
+                bad = True
+            if clause in ("terminating_event_ends_session", "empty_return_ends_session") and (empty is True or ev["op"] in ("commit", "finish")) and x.get("ongoing"):
+                bad = True
+            if clause == "nonempty_return_means_ongoing" and empty is False and not x.get("ongoing"):
+                bad = True
+            if clause == "session_invariant_preserved" and st.get("buffer") == "" and st.get("pending") is None and st.get("typed") != "":
+                bad = True
+            if clause == "idle_backspace_returns_empty" and False:
+                bad = True
+            if bad:
+                keys = [SEARCH_VALUES[PLANT_KEYS.index(s["key"])] if s["key"] in PLANT_KEYS else lay.get("Key_a_Normal")
+                        for s in sc["steps"][1:] if s.get("op") == "key"]
+                what = "after typing layout values %s and %s the state is %s (returned empty=%s, session flag %s): %s" % (
+                    keys, json.dumps(ev), json.dumps(st, ensure_ascii=False), empty, x.get("ongoing"), clause)
+                return sc, rr[i:i + 2], what
+    return None
